@@ -7,10 +7,19 @@
   early, that every task runs exactly once, and that the outcome equals the sequential run — is
   checked by the correspondence run on a generated family of schedule types under scripted
   fork/join orders and real pools (the sequential reference is the real systems run one by one).
-  PARTIAL: task bodies are atomic in the model; sequential equivalence of the *phase* order is
-  established by the differential run, not yet by a Lean theorem about `runStages`.
+
+  Run time (`Lemmas/SchedDyn`, `Lemmas/SchedSem`): `phaseTasks` is the stage runner of stage.rs
+  as lists of tasks — per stage, the tasks not yet run plus the next-stage tasks the add-on check
+  starts early.  `C07_sequential_equivalence`: for every schedule of well-formed tasks, every set
+  of archetypes, and every task semantics that respects the tasks' claims (`apTask`: a cell changes
+  only if claimed mutably, new values depend only on claimed cells), running the phases one after
+  the other — the tasks of a phase in ANY order — ends in the same state as running the tasks one
+  by one in declared order; every task runs exactly once (`C07_each_task_once`).
+  PARTIAL: tasks are atomic in the model (interleavings *inside* data-race-free task bodies are
+  the Rust memory model's business), and that the real systems respect their claims is C03/C14;
+  the model's phases are compared with the real fork/join log by the correspondence check.
 -/
-import BroodModel.Lemmas.Sched
+import BroodModel.Lemmas.SchedSem
 
 namespace Brood
 open Static Generated
@@ -37,9 +46,60 @@ theorem C07_count (ts : List Task) :
 example : (stages verifierTable mergerTable
     [⟨[.ref 0], .none, [], []⟩, ⟨[.ref 2], .none, [], []⟩, ⟨[.mut 2], .none, [], []⟩]).map List.length = [2, 1] := by decide
 
+/-- **Running a schedule equals running its tasks one by one in declared order.** -/
+theorem C07_sequential_equivalence {n nres : Nat} {masks : List Mask} (hm : masks.Nodup)
+    (g : Task → (SCell → Nat) → SCell → Nat) (ts : List Task) (hwf : ∀ t ∈ ts, t.WF)
+    (perms : List (List Task))
+    (hp : PhasePerm perms (phaseTasks n nres masks (stages verifierTable mergerTable ts)
+      (((stages verifierTable mergerTable ts).headD []).map (fun _ => false))))
+    (s : SCell → Nat) :
+    runSeq (apTask n nres masks g) perms.flatten s = runSeq (apTask n nres masks g) ts s := by
+  have hst : ∀ st ∈ stages verifierTable mergerTable ts, Compatible st ∧ ∀ t ∈ st, t.WF := by
+    intro st hs
+    refine ⟨C07_stage_mates_compatible ts st hs, ?_⟩
+    intro t ht
+    apply hwf
+    have := stages_flatten verifierTable mergerTable ts
+    have hm' : t ∈ (stages verifierTable mergerTable ts).flatten := List.mem_flatten.mpr ⟨st, hs, ht⟩
+    rw [this] at hm'; exact hm'
+  have := phases_seq_equiv (apTask n nres masks g) hm
+    (fun u t h s => apTask_comm n nres masks g h s)
+    (stages verifierTable mergerTable ts) _ perms hst (by simp) hp s
+  rw [accepted_all_false, List.nil_append, stages_flatten] at this
+  exact this
+
+/-- The phases the driver prints and the correspondence check compares with the real fork/join log
+(`phases`, as `(stage, position)` pairs) name exactly the tasks of `phaseTasks`. -/
+theorem C07_phases_name_these_tasks (n nres : Nat) (masks : List Mask) (sts : List (List Task)) :
+    (phases claimTryMerge n nres masks sts).map (fun ph => ph.filterMap (idxTask sts 0)) =
+      phaseTasks n nres masks sts ((sts.headD []).map (fun _ => false)) :=
+  runStages_tasks n nres masks sts 0 _ (by simp)
+
+/-- Every task runs exactly once: the phases, flattened, are a permutation of the tasks. -/
+theorem C07_each_task_once {n nres : Nat} {masks : List Mask} :
+    ∀ (sts : List (List Task)) (hasRun : List Bool), hasRun.length = (sts.headD []).length →
+      (accepted (sts.headD []) hasRun ++ (phaseTasks n nres masks sts hasRun).flatten).Perm sts.flatten := by
+  intro sts
+  induction sts with
+  | nil => intro hasRun _; simp [phaseTasks, accepted]
+  | cons st rest ih =>
+    intro hasRun hl
+    simp only [List.headD_cons] at hl ⊢
+    simp only [phaseTasks, List.flatten_cons]
+    have h1 := accepted_running_perm st hasRun hl
+    have h2 := ih (runStage claimTryMerge n nres masks st hasRun (rest.headD [])).2
+      (runStage_flags_length n nres masks st hasRun (rest.headD []))
+    rw [← List.append_assoc, ← List.append_assoc]
+    rw [List.append_assoc (accepted st hasRun ++ runningOf st hasRun)]
+    exact h1.append h2
+
+
 end Brood
 
 #print axioms Brood.C07_staged_once
 #print axioms Brood.C07_no_empty_stage
 #print axioms Brood.C07_stage_mates_compatible
 #print axioms Brood.C07_count
+#print axioms Brood.C07_sequential_equivalence
+#print axioms Brood.C07_each_task_once
+#print axioms Brood.C07_phases_name_these_tasks
